@@ -60,8 +60,9 @@ def expected(a, e, na, ne, s, es, n):
     return ("ok", out)
 
 
-def run_case(ctx, W, np, a, e, na, ne, s, es, n, dtype, reqs, pad=None):
-    def build(rows, ncol, k):
+def run_case(ctx, W, np, a, e, na, ne, s, es, n, dtype, reqs, pad=None, dtype_e=None):
+    dtype_e = dtype_e or dtype
+    def build(rows, ncol, k, dtype):
         arr = np.array(rows, dtype=dtype).reshape(len(rows), ncol)
         if not k:
             return W.from_lines(arr, signal_count=ncol)
@@ -69,8 +70,8 @@ def run_case(ctx, W, np, a, e, na, ne, s, es, n, dtype, reqs, pad=None):
         filler = (np.arange((k[0] + k[1]) * ncol).reshape(k[0] + k[1], ncol) % (2 if dtype is np.bool_ else 8)).astype(dtype)
         buf = np.concatenate([filler[:k[0]], arr, filler[k[0]:]])
         return W(data=buf, start_index=k[0], sample_count=len(rows))
-    wa = build(a, na, pad and pad[0])
-    we = build(e, ne, pad and pad[1])
+    wa = build(a, na, pad and pad[0], dtype)
+    we = build(e, ne, pad and pad[1], dtype_e)
     kw = {}
     if s is not None: kw["start_sample"] = s
     if es is not None: kw["expected_start_sample"] = es
@@ -86,7 +87,7 @@ def run_case(ctx, W, np, a, e, na, ne, s, es, n, dtype, reqs, pad=None):
     else:
         got = ("err", o[1])
     if got != want:
-        ctx.violation(what="test", actual=a, expected=e, nsig=(na, ne), window=(s, es, n), dtype=str(dtype),
+        ctx.violation(what="test", actual=a, expected=e, nsig=(na, ne), window=(s, es, n), dtype=f"{np.dtype(dtype)} vs {np.dtype(dtype_e)}",
                       observed=str(got)[:300], required=str(want)[:300])
     f = lambda x: "-" if x is None else str(x)
     text = ("ok " + "[" + ",".join("(%d,%d,%d,%d,%d)" % t for t in got[1]) + "]") if got[0] == "ok" else "err " + got[1]
@@ -145,14 +146,18 @@ def run(ctx):
         ne = na if rng.random() < 0.9 else rng.randint(1, 5)
         la, le = rng.randint(0, 6), rng.randint(0, 6)
         dtype = rng.choice([np.uint8, np.uint8, np.int8, np.bool_])
+        # the two waveforms need not have the same state dtype (bool against uint8 / int8 and so on)
+        dtype_e = dtype if rng.random() < 0.6 else rng.choice([np.uint8, np.int8, np.bool_])
         hi = 2 if dtype is np.bool_ else (8 if rng.random() < 0.9 else 12)
+        hie = 2 if dtype_e is np.bool_ else (8 if rng.random() < 0.9 else 12)
         a = [[rng.randrange(hi) for _ in range(na)] for _ in range(la)]
-        e = [[rng.randrange(hi) for _ in range(ne)] for _ in range(le)]
+        e = [[rng.randrange(hie) for _ in range(ne)] for _ in range(le)]
+        ctx.count("dtypes", f"{np.dtype(dtype)} vs {np.dtype(dtype_e)}")
         s = rng.choice([None, 0, 1, 2, la, la + 1, -1])
         es = rng.choice([None, 0, 1, 2, le, le + 1, -1])
         n = rng.choice([None, 0, 1, 2, 3, la, le, max(0, la - (s or 0)), max(0, le - (es or 0)), -1])
         pad = None if rng.random() < 0.5 else ((rng.randint(0, 3), rng.randint(0, 2)), (rng.randint(0, 3), rng.randint(0, 2)))
-        run_case(ctx, W, np, a, e, na, ne, s, es, n, dtype, reqs, pad=pad)
+        run_case(ctx, W, np, a, e, na, ne, s, es, n, dtype, reqs, pad=pad, dtype_e=dtype_e)
     # ---- windows given as narrow NumPy integer scalars on waveforms longer than those types can count -----------
     big_a = [[(i * 7 + 3) % 8] for i in range(300)]
     big_e = [[(i * 5 + 1) % 8] for i in range(300)]
@@ -173,6 +178,26 @@ def run(ctx):
                 ctx.violation(what="test window given as NumPy integer scalars", window=(repr(T(s0)), repr(T(es0)), repr(T(n0))), observed=str(got)[:300],
                               required=str(want)[:300])
                 break
+    # ---- long windows (tens of thousands of samples, not multiples of anything): every failure is reported at its own sample ------
+    for case in range(3 if ctx.quick else 20):
+        nsamp = rng.choice([70000, 65537, 131073, 150001] if not ctx.quick else [70000, 65537 + rng.randint(0, 3000)])
+        nsig = rng.choice([1, 2])
+        gen = np.random.default_rng(ctx.seed * 77 + case)
+        a_arr = gen.integers(0, 2, (nsamp, nsig)).astype(np.uint8)
+        e_arr = a_arr.copy()
+        pos = sorted(set(int(x) for x in gen.integers(0, nsamp, 12)) | {nsamp - 1, nsamp // 2, 65535, 65536})
+        for p_ in pos:
+            e_arr[p_, p_ % nsig] = 1 - a_arr[p_, p_ % nsig]          # FORCE_DOWN against FORCE_UP: incompatible
+        s0 = rng.choice([0, 0, 3])
+        wa_l, we_l = W.from_lines(a_arr), W.from_lines(e_arr)
+        o = outcome(lambda: wa_l.test(we_l, start_sample=s0, expected_start_sample=s0))
+        want = [(p_, p_, nsig - 1 - (p_ % nsig), int(a_arr[p_, p_ % nsig]), int(e_arr[p_, p_ % nsig])) for p_ in pos if p_ >= s0]
+        got = [(int(f.sample_index), int(f.expected_sample_index), int(f.signal_index), int(f.actual_state), int(f.expected_state)) for f in o[1].failures] if o[0] == "ok" else None
+        ctx.case(("long-window", nsamp, nsig, s0))
+        ctx.count("window", "long")
+        if got is None or sorted(got) != sorted(want):
+            ctx.violation(what="test over a long window", samples=nsamp, signals=nsig, start=s0, observed=(show(o)[:200] if got is None else str(sorted(got))[:300]),
+                          required=str(sorted(want))[:300])
     # ---- values that are not digital states, in particular the SAME invalid value on both sides ----------------
     for _ in range(150 if ctx.quick else 5000):
         na = rng.randint(1, 3)
